@@ -49,6 +49,7 @@ impl VErrors {
     pub fn make_err(self) -> Result<(), VErrors> { if self.n == 0 { Ok(()) } else { Err(self) } }
 }
 pub type AResult<T> = Result<T, VErr>;
+pub fn slice_from_check(a: usize, n: usize) -> usize { assert!(a <= n); a }
 // extraction markers are no-ops here
 macro_rules! vx_contract { ($($t:tt)*) => {}; }
 macro_rules! vx_at { ($($t:tt)*) => {}; }
